@@ -67,6 +67,8 @@ def make_scenario(spec, seed, idx):
         knobs['idle_timeouts'] = True
     if r.random() < 0.2:
         knobs['container'] = 'bytes'
+    if r.random() < 0.2:
+        knobs['istring'] = r.choice((1, 4, 255))
     scen = {'config': 'fault-free', 'variant': variant,
             'pad': r.choice(('3CJ', 'ABZ', '00Q9', 'zz7', 'GDX1YZ')),
             'fw': {'len': n, 'kind': r.choice(('random', 'random', 'random', 'mixed', 'zeros', 'ff', 'suffix')), 'seed': r.randrange(1 << 30)},
